@@ -527,3 +527,50 @@ def class_level_mutable_state(P, R, rule, classes, why):
                     f'`{ci.name}.{name} = {norm(v)}` is one container shared by all instances, and `{norm(writers[0][1])[:70] if writers else ""}` in {writers[0][0].qualname if writers else ""} fills it in '
                     f'place: {why}', construct=f'{ci.name}.{name} class-level container')
     return n
+
+
+FRESH_PER_CALL = ('uuid.', 'time.', 'random.', 'tempfile.', 'datetime.', 'secrets.', 'os.getpid', 'os.urandom', 'np.random.', 'numpy.random.', 'itertools.count', 'threading.')
+
+
+def evaluated_once(P, R, rule, why):
+    """A parameter default (and a module-level constant) is evaluated ONCE, when the module is imported.  A value that is meant to be fresh for every call
+    - a uuid, a time stamp, a random or temporary name - placed there is shared by every call in the process: two concurrent calls use the same
+    "unique" name.  Also the classic mutable default that the function fills in place."""
+    n = 0
+    for f in P.all_funcs():
+        if isinstance(f.node, ast.Lambda):
+            continue
+        a = f.node.args
+        pos = a.posonlyargs + a.args
+        pairs = list(zip(pos[len(pos) - len(a.defaults):], a.defaults)) + [(k, d) for k, d in zip(a.kwonlyargs, a.kw_defaults) if d is not None]
+        for arg, d in pairs:
+            calls = [norm(c.func) for c in ast.walk(d) if isinstance(c, ast.Call)]
+            fresh = [c for c in calls if any(c.startswith(p_) or c == p_.rstrip('.') for p_ in FRESH_PER_CALL)]
+            if fresh:
+                n += 1
+                R.bad(rule, f, d, f'the default `{arg.arg}={norm(d)}` of {f.qualname} is evaluated once, when the module is imported: every call that relies on it gets the SAME '
+                                  f'value of `{fresh[0]}(...)`: {why}', construct=f'{f.qualname}: default {arg.arg} evaluated once')
+            if isinstance(d, (ast.List, ast.Dict, ast.Set)) or (isinstance(d, ast.Call) and norm(d.func) in ('list', 'dict', 'set') and not d.args):
+                MUT = ('append', 'extend', 'add', 'update', 'insert', 'setdefault', 'pop', 'clear', 'remove')
+                filled = [x for x in walk_own(f.node) if (isinstance(x, ast.Call) and isinstance(x.func, ast.Attribute) and x.func.attr in MUT and isinstance(x.func.value, ast.Name) and x.func.value.id == arg.arg)
+                          or (isinstance(x, (ast.Assign, ast.AugAssign)) and any(isinstance(t, ast.Subscript) and isinstance(t.value, ast.Name) and t.value.id == arg.arg
+                                                                                for t in (x.targets if isinstance(x, ast.Assign) else [x.target])))]
+                if filled:
+                    n += 1
+                    R.bad(rule, f, d, f'the mutable default `{arg.arg}={norm(d)}` of {f.qualname} is filled in place (`{norm(filled[0])[:60]}`): all calls share one container',
+                          construct=f'{f.qualname}: mutable default {arg.arg}')
+    for m in P.mods.values():
+        for st in m.tree.body:
+            if isinstance(st, ast.Assign) and len(st.targets) == 1 and isinstance(st.targets[0], ast.Name):
+                calls = [norm(c.func) for c in ast.walk(st.value) if isinstance(c, ast.Call)]
+                fresh = [c for c in calls if any(c.startswith(p_) or c == p_.rstrip('.') for p_ in FRESH_PER_CALL) and not c.startswith('threading.')]
+                if fresh:
+                    users = [f for f in P.all_funcs() if f.mod is m and not isinstance(f.node, ast.Lambda) and st.targets[0].id in astq.names_in(f.node)]
+                    if users:
+                        n += 1
+                        R.bad(rule, (m.path, st.targets[0].id), st, f'the module-level `{norm(st)[:70]}` is evaluated once per process and used by {users[0].qualname}: every call shares the value '
+                                                                   f'of `{fresh[0]}(...)`: {why}', construct=f'{st.targets[0].id}: module-level value evaluated once')
+    if n == 0:
+        R.ok(rule, ('spatialpandas', 'defaults'), None, 'no parameter default or module-level constant holds a value that must be fresh per call (uuid, time, random, temp name); no mutable default is filled in place',
+             construct='values evaluated once')
+    return n
